@@ -16,16 +16,29 @@ esac
 HOOK="-DABT_CONFIG_VERIF_MC -include $V/engine/abtmc_hooks.h"
 SRCHASH=$( (cd $REPO/src && find . \( -name '*.c' -o -name '*.h' -o -name '*.S' \) -type f | LC_ALL=C sort | xargs sha1sum; sha1sum $V/engine/abtmc_hooks.h $V/engine/libc_map.txt $V/bin/build_lib.sh; echo "$FLAV $CFLAGS $*") | sha1sum | cut -c1-16)
 B=$V/build/$FLAV-$SRCHASH
-if [ -f $B/libabt.a ]; then echo $B; exit 0; fi
-# drop stale builds of the same flavour
-rm -rf $V/build/$FLAV-* 2>/dev/null || true
+mkdir -p $V/build
+exec 9>$V/build/.lock.$FLAV
+flock 9
+if [ -f $B/libabt.a ]; then touch $B/.used; echo $B; exit 0; fi
+# drop stale builds of the same flavour (not used for 3 hours)
+for d in $V/build/$FLAV-*; do
+  [ -d "$d" ] || continue
+  if [ -z "$(find $d -maxdepth 1 -name .used -mmin -180 2>/dev/null)" ]; then rm -rf $d; fi
+done
 mkdir -p $B/obj $B/include
-# generated headers: reuse the tree's configure output, else configure here
-if [ -f $REPO/src/include/abt_config.h ] && [ -f $REPO/src/include/abt.h ]; then
-  cp $REPO/src/include/abt_config.h $REPO/src/include/abt.h $B/include/
+# generated headers: abt.h is always regenerated from the tree's abt.h.in (so
+# edits to the public header are seen); abt_config.h comes from the tree's
+# configure output, else from /repo's, else from the copy kept with the engine
+sed -e 's/@ABT_VERSION@/1.2rc1/' -e 's/@ABT_NUMVERSION@/10200201/' \
+    -e 's/@ABT_DEPRECATED@/__attribute__((deprecated))/' \
+    -e 's/@ABT_ENABLE_VER_20_API@/0/' -e 's/@ABT_NULL@/0/' \
+    $REPO/src/include/abt.h.in > $B/include/abt.h
+if [ -f $REPO/src/include/abt_config.h ]; then
+  cp $REPO/src/include/abt_config.h $B/include/
+elif [ -f /repo/src/include/abt_config.h ]; then
+  cp /repo/src/include/abt_config.h $B/include/
 else
-  (mkdir -p $B/cfg && cd $B/cfg && $REPO/configure -q >/dev/null 2>&1 && cp src/include/abt_config.h src/include/abt.h $B/include/) || { echo "configure failed" >&2; exit 2; }
-  rm -rf $B/cfg
+  cp $V/engine/fallback/abt_config.h $B/include/
 fi
 if [ "$FLAV" = "mc-nobar" ]; then
   sed -i 's/^#define HAVE_PTHREAD_BARRIER_INIT 1/\/* #undef HAVE_PTHREAD_BARRIER_INIT *\//' $B/include/abt_config.h
@@ -45,4 +58,5 @@ for o in $B/obj/*.o; do
   objcopy --redefine-syms=$V/engine/libc_map.txt $o
 done
 ar rcs $B/libabt.a $B/obj/*.o
+touch $B/.used
 echo $B
